@@ -761,7 +761,7 @@ def run(ctx):
                                rep, found_input=False)
     phase["guard_family"] = round(time.time() - t0 - sum(phase.values()), 1)
     # ---- probe (recorded, not a verdict): an INTEGER relative grid, e.g. alphas=[0], makes
-    # `scaled_alphas *= max(...)` raise a casting error (fixes/F29_ridge2fold_integer_relative_alphas.diff)
+    # `scaled_alphas *= max(...)` raise a casting error (fixes/F34_ridge2fold_integer_relative_alphas.diff)
     probe = None
     try:
         from skmatter.linear_model import Ridge2FoldCV
@@ -817,7 +817,7 @@ def run(ctx):
                samples=[slim(i) for i in idx[:2]],
                distribution=stats, anchor_drift=changed, oracle_runs=n_search,
                findings=dict(C10_rank_refuted=bool(fok and not fscan),
-                             F29_integer_relative_grid_alphas_eq_0=probe),
+                             F34_integer_relative_grid_alphas_eq_0=probe),
                guard_family=dict(gstats, disagreements=len(g_bad)), phase_seconds=phase,
                mismatches_explained_by_reported_defect=explained,
                mismatches_total=len(mismatched), oracle_failures_unkeyed=n_found, oracle_accepts_unkeyed=n_unkeyed,
